@@ -824,6 +824,10 @@ impl<
                         }
 
                         return Ok(Some(active_request));
+                    } else if self.enable_fire_and_forget {
+                        let active_request =
+                            self.create_active_request(details, chunk, INVALID_CONNECTION_ID);
+                        return Ok(Some(active_request));
                     }
                 }
                 None => return Ok(None),
